@@ -34,7 +34,7 @@ def stage_model(i):
     if i % 2 == 0:
         s = Spec(nx=2, nu=1, ode=[nl1(X(1)) * U(0) + t * X(0), X(0) - X(1) * Pg('a') + t],
                  params=[Sym('a', value=Fr(3, 2))])
-        s.objective = [integral(X(0) * X(0) + t * U(0)), at_tf(X(1)) * T]
+        s.objective = [integral(X(0) * X(0) + t * U(0)), at_tf(X(1)) * T + Pg('a') * at_t0(X(1))]      # (the stage's own parameter inside its objective: clones of one template share the symbol, not the value)
         s.cons = [Con('<=', X(0), 3 + t), Con('<=<=', -1, 1, mid=U(0)), Con('<=', at_tf(X(0)) - at_t0(X(0)), tf)]
         s.initial = [(X(0), Fr(2)), (U(0), t * Fr(1, 2))]
     else:
@@ -312,7 +312,17 @@ def run(item):
     desc = item['desc']
     with quiet():
         master = build(desc)
-    inst = Inst(None, None, seed=item.get('seed', 0), built=master, extra_outputs=lambda b: [b.ocp.value(b.w), b.ocp.value(b.w2), b.ocp.value(b.pa), b.ocp.value(b.pb), b.ocp.value(b.ocp.objective)])
+    unresolved = []
+
+    def extra(b):
+        ov = b.ocp.value(b.ocp.objective)
+        known = list(b.ocp._method.opti.advanced.symvar())
+        free = [s_.name() for s_ in ca.symvar(ov) if not any(ca.is_equal(s_, k_) for k_ in known)]
+        if free:
+            unresolved.extend(free)
+            ov = ca.MX(0)
+        return [b.ocp.value(b.w), b.ocp.value(b.w2), b.ocp.value(b.pa), b.ocp.value(b.pb), ov]
+    inst = Inst(None, None, seed=item.get('seed', 0), built=master, extra_outputs=extra)
     ch = Checker(inst)
     z3 = inst.z3
     viol = []
@@ -366,7 +376,9 @@ def run(item):
         v = ch.violations.pop()
         V('objective', 'f', 'multi-stage objective is not the sum: %s' % {k: v.get(k) for k in ('how', 'impl', 'ref')})
     # value(ocp.objective) of the multi-stage OCP is the cost that is minimised (own terms and those of every stage)
-    if not ch.prove('value(ocp.objective) == f', {d: inst.view(d)[5][4][0] for d in doms}, fi) and ch.violations:
+    if unresolved:
+        V('objective-value', 'value(ocp.objective)', 'value(ocp.objective) of the multi-stage OCP still contains symbols that are no NLP quantities: %s' % sorted(set(unresolved))[:6])
+    elif not ch.prove('value(ocp.objective) == f', {d: inst.view(d)[5][4][0] for d in doms}, fi) and ch.violations:
         v = ch.violations.pop()
         V('objective-value', 'value(ocp.objective)', 'value(ocp.objective) of the multi-stage OCP differs from the NLP objective: %s' % {k: v.get(k) for k in ('how', 'impl', 'ref')})
     # the parent's own symbols: variables read back as decision variables, parameters as NLP parameters carrying the values that were set
